@@ -44,6 +44,9 @@ func Check() *engine.Check {
 			"menus through the decision handler and the envoy ext_authz service including their recovery layers. (5) the hot reloaded credentials " +
 			"file of the redis cache: the new version cut at every byte offset, null / empty / scalar / list / ill-typed documents, at creation " +
 			"and on reload, followed by the fetch of the credentials the redis client performs on its own goroutines. " +
+			"(6) peers of a TLS port that never get as far as a request line (close at once, plain HTTP, garbage, TLS records of the wrong kind, " +
+			"a client hello cut at every 32nd (thorough: 4th) byte, sent twice, with its type flipped), one after the other against the listener " +
+			"the services are started on under a net/http server: Serve has not returned and a proper TLS client is answered after each. " +
 			"A case is non-trivial when its input is not a complete valid document (it is a truncation, a removal or a type confusion); " +
 			"distinct = distinct (part, entry point, document, mutation).",
 		Assumptions: []string{
@@ -83,6 +86,7 @@ func allUnits(c *engine.Ctx) []unit {
 	units = append(units, remoteUnits(c)...)
 	units = append(units, requestUnits(c)...)
 	units = append(units, redisCredsUnits(c)...)
+	units = append(units, tlsConnUnits(c)...)
 
 	return units
 }
@@ -561,6 +565,8 @@ func replay(c *engine.Ctx, raw json.RawMessage) {
 		replayRequest(c, raw)
 	case "redis-credentials":
 		replayRedisCreds(c, raw)
+	case "tls-connection":
+		replayTLSConn(c, raw)
 	default:
 		c.Infra("unknown part %q", probe.Part)
 	}
